@@ -284,6 +284,58 @@ def scenarios(rnd, thorough):
     return out
 
 
+class DiscoverScenario:
+    """a run started through Driver.Discover itself (the entry point the SDK and the debounced configuration change
+    use) with the configuration set: one wildcard listener plays every 127.x.y.z host of the subnets"""
+
+    def __init__(self, subnets, async_limit, probe_s, max_s, default_mode, hosts, late_slack_ms=700):
+        self.subnets, self.async_limit, self.probe_s, self.max_s = subnets, async_limit, probe_s, max_s
+        self.default_mode, self.hosts, self.late_slack_ms = default_mode, hosts, late_slack_ms
+        self.budget_ms = max_s * 1000 + probe_s * 1000 + SEND_TIMEOUT_MS + SLACK_MS
+
+    def go_req(self):
+        hs = ["%s,%s,%d,%d,%d,%s" % (h["ip"], h["mode"], h["v"], h["m"], h["t"], hx(h["rid"])) for h in self.hosts]
+        return "discover %s %d %d %d %d %d %s %s" % (",".join(self.subnets), self.async_limit, self.probe_s, self.max_s,
+                                                    self.budget_ms, self.late_slack_ms, self.default_mode, ";".join(hs) or "-")
+
+    def to_json(self):
+        d = dict(self.__dict__)
+        d["hosts"] = [dict(h, rid=hx(h["rid"])) for h in self.hosts]
+        return d
+
+    @staticmethod
+    def from_json(d):
+        return DiscoverScenario(d["subnets"], d["async_limit"], d["probe_s"], d["max_s"], d["default_mode"],
+                                [dict(h, rid=unhx(h["rid"])) for h in d["hosts"]], d.get("late_slack_ms", 700))
+
+
+def dhost(a, b, c, mode, rnd):
+    v, m = rnd.choice([(IMPINJ, 2001002), (IMPINJ, 2001008), (IMPINJ, 77), (50, 2001002)])
+    return dict(ip="127.%d.%d.%d" % (a, b, c), mode=mode, v=v, m=m, t=rnd.choice([0, 0, 1]),
+                rid=bytes([0, 0x17, a, b, c]) + bytes(rnd.getrandbits(8) for _ in range(rnd.choice([0, 2]))))
+
+
+def discover_scenarios(rnd, thorough):
+    out = []
+    # far more addresses than workers x (max duration / probe time): every host accepts and never speaks
+    out.append(DiscoverScenario(["127.1.0.0/24"], 1, 1, 2, "silent", []))
+    # hosts that stall in mid-handshake, a few workers, two readers at the first addresses
+    out.append(DiscoverScenario(["127.2.0.0/24"], 4, 1, 1, "stall-neg",
+                                [dhost(2, 0, 1, "correct", rnd), dhost(2, 0, 2, "correct", rnd)]))
+    # no maximum configured (0): two small subnets of hosts that close at once, a reader and a host without identification
+    out.append(DiscoverScenario(["127.3.0.0/29", "127.3.1.0/30"], 50, 1, 0, "close",
+                                [dhost(3, 0, 3, "correct", rnd), dhost(3, 1, 2, "noident", rnd), dhost(3, 0, 5, "correct-v11", rnd)]))
+    a = 3
+    for _ in range(12 if thorough else 4):
+        a += 1
+        mode = rnd.choice(["silent", "stall-caps", "stall-config", "partial-hello", "stall-payload", "noclose", "garbage", "close"])
+        nsub = rnd.choice([1, 1, 2])
+        subnets = ["127.%d.%d.0/%d" % (a, 2 * i, rnd.choice([23, 24, 24, 25])) for i in range(nsub)]
+        hosts = [dhost(a, 0, c, rnd.choice(["correct", "correct", "noident", "correct-errver"]), rnd) for c in rnd.sample(range(1, 6), rnd.choice([0, 1, 2]))]
+        out.append(DiscoverScenario(subnets, rnd.choice([1, 2, 3, 8]), 1, rnd.choice([1, 2]), mode, hosts))
+    return out
+
+
 def parse_run(line):
     f = line.split()
     d = kv(line)
@@ -329,11 +381,13 @@ def run(tier, seed, replay=None):
         ncases = [tuple([c[0], c[1], c[2], unhx(c[3]), unhx(c[4]), c[5], c[6], c[7]]) for c in rp.get("naming", [])]
         pmodes = [tuple(p) for p in rp.get("probes", [])]
         scens = [Scenario.from_json(s) for s in rp.get("scenarios", []) if "devices" in s]
+        dscens = [DiscoverScenario.from_json(x) for x in rp.get("discover", [])]
         probe_budget = rp.get("probe_budget_ms", PROBE_TIMEOUT_MS + SEND_TIMEOUT_MS + SLACK_MS)
     else:
         ncases = naming_cases(rnd, thorough)
         pmodes = list(PROBE_MODES)
         scens = scenarios(rnd, thorough)
+        dscens = discover_scenarios(rnd, thorough)
         probe_budget = PROBE_TIMEOUT_MS + SEND_TIMEOUT_MS + SLACK_MS + (30000 if thorough else 0)
 
     go_reqs, orc_reqs = [], []
@@ -347,12 +401,14 @@ def run(tier, seed, replay=None):
         go_reqs.append(s.go_req())
         orc_reqs.append(s.oracle_req("-"))
         orc_reqs.append(s.oracle_req(str(PROBE_TIMEOUT_MS)))
+    for ds in dscens:
+        go_reqs.append(ds.go_req())
     # the timing model's prediction for single probes, both timer settings
     for (mode, beh, want) in pmodes:
         for rd in ("-", str(PROBE_TIMEOUT_MS)):
             orc_reqs.append("run 1000 %d %s %d P 1 D 0 H 1 1 %s 25882 2001002 0 001625123456 W 1 1 1" % (PROBE_TIMEOUT_MS, rd, SEND_TIMEOUT_MS, beh))
 
-    longest = max([probe_budget] + [s.budget_ms for s in scens]) / 1000.0
+    longest = max([probe_budget] + [s.budget_ms for s in scens] + [sum(d.budget_ms + 45000 for d in dscens)]) / 1000.0
     rc, go_lines, glog = vlib.run_harness(exe, "TestVerifC17", "\n".join(go_reqs) + "\n", timeout=int(longest + 240))
     orc, oout = vlib.run_oracle("c17", "\n".join(orc_reqs) + "\n", timeout=600)
     olines = oout.split("\n")
@@ -524,6 +580,53 @@ def run(tier, seed, replay=None):
                 res.violation("model-differs:run", "Go and the model differ on dialled/discovered sets though the property holds: go dialled=%s discovered=%s; model dialled=%s discovered=%s" % (
                     sorted(g_probed), g_disc, sorted(m_probed & listening), m_disc), rd, False)
 
+    # ---------------- runs started through Driver.Discover
+    for ds in dscens:
+        g = go_lines[gi].strip()
+        gi += 1
+        evals += 1
+        dist["discover:" + ds.default_mode] = dist.get("discover:" + ds.default_mode, 0) + 1
+        nontriv.add(("discover", ds.go_req()))
+        rd = dict(kind="discover", discover=[ds.to_json()], observed=g)
+        if len(samples) < 14:
+            samples.append(dict(request=ds.go_req(), go=g))
+        if g.startswith("harness-error"):
+            res.violation("harness-run", "discover scenario did not start: " + g, rd, False)
+            continue
+        f, d = g.split(), kv(g)
+        cfg = "Driver.Discover with DiscoverySubnets=%s ProbeAsyncLimit=%d ProbeTimeoutSeconds=%d MaxDiscoverDurationSeconds=%d, every host '%s'" % (
+            ",".join(ds.subnets), ds.async_limit, ds.probe_s, ds.max_s, ds.default_mode)
+        if int(d["late"]) > 0:
+            res.violation("probe-started-after-deadline", "%s: a host was dialled %s ms after the start, i.e. after the configured maximum (%d dial(s) later than max + %d ms; %s dials in all)" % (
+                cfg, d["lastdial_ms"], int(d["late"]), ds.late_slack_ms, d["dials"]), rd)
+            continue
+        if f[0] == "blocked":
+            res.violation("run-exceeds-max-duration", "%s had not returned after %d ms (%s dials)" % (cfg, ds.budget_ms, d["dials"]), rd)
+            continue
+        by_ip = {h["ip"]: h for h in ds.hosts}
+        rep = {}
+        for x in [x for x in d.get("reported", "").split(",") if x]:
+            n, ip = x.split("@")
+            rep.setdefault(ip, []).append(unhx(n))
+        bad = False
+        for ip, names in rep.items():
+            h = by_ip.get(ip)
+            if h is None or MODEL_BEH[h["mode"]] != "answer":
+                res.violation("unidentified-reported", "%s: host %s (behaviour %s) was reported as %r" % (cfg, ip, h["mode"] if h else ds.default_mode, names), rd)
+                bad = True
+            elif names != [spec_name(h["v"], h["m"], h["t"], h["rid"])]:
+                res.violation("name-wrong:run", "%s: host %s reported as %r, the rule gives %r" % (cfg, ip, names, spec_name(h["v"], h["m"], h["t"], h["rid"])), rd)
+                bad = True
+        if bad:
+            continue
+        if d["published"] != "1":
+            res.violation("result-not-published", "%s returned but handed %s result lists to the SDK's channel" % (cfg, d["published"]), rd, False)
+            continue
+        dialled = set(x for x in d.get("probed", "").split(",") if x)
+        want = set(h["ip"] for h in ds.hosts if MODEL_BEH[h["mode"]] == "answer" and h["ip"] in dialled)
+        if set(rep) != want:
+            res.violation("model-differs:discover", "%s: readers dialled and answering %s, reported %s" % (cfg, sorted(want), sorted(rep)), rd, False)
+
     if blocked_modes or blocked_runs:
         what = ("a host that accepts the TCP connection and then stops talking without closing it blocks probe() for ever "
                 "(only the dial is bounded by the probe timeout; llrp.Client.Connect reads the connection without a deadline). "
@@ -555,7 +658,9 @@ def run(tier, seed, replay=None):
              "probe: one scripted misbehaviour each (distinct by behaviour, all non-trivial). run: autoDiscover on a /29 of scripted loopback hosts with a "
              "mocked SDK device list given in order: 0..4 registered devices per host on the scan port / other ports (with connection-counting "
              "listeners) / without usable address, states Up/Down/Unknown, locked/unlocked, same or different name, both list orders, duplicates "
-             "(distinct by the full scenario).",
+             "(distinct by the full scenario). discover: Driver.Discover itself with the configuration set (subnets /23../30 played by one "
+             "wildcard listener, 1..50 workers, probe 1 s, maximum 0/1/2 s, every host silent/stalling/closing + a few readers): no dial later than "
+             "maximum + 0.7 s, return within maximum + allowance, one result list handed to the SDK channel.",
         samples=samples, input_distribution=dist, traces_validated_against_impl=evals,
         probe_observations=probe_obs, capabilities_without_sensitivity_entries=sorted(set(nosens_obs)),
         trusted_base=res.assumptions)
